@@ -905,7 +905,11 @@ class World:
         if hk is None:
             return None
         try:
-            tpl = T(("CKA_CLASS", "CKO_SECRET_KEY"), ("CKA_KEY_TYPE", "CKK_GENERIC_SECRET"), ("CKA_VALUE_LEN", 32))
+            # four shapes, chosen by the object number: encryption of 32 bytes / concatenation of 16 + 8 bytes, asked for a length the
+            # mechanism yields or for MORE than it yields (a valid template that fails late, after the object exists)
+            shape = oid % 4
+            want = (32, 48, 64, 20)[shape]
+            tpl = T(("CKA_CLASS", "CKO_SECRET_KEY"), ("CKA_KEY_TYPE", "CKK_GENERIC_SECRET"), ("CKA_VALUE_LEN", want))
             if token is not None:
                 tpl.append(A("CKA_TOKEN", token))
             if private is not None:
@@ -915,8 +919,17 @@ class World:
             if bad:
                 tpl = corrupt(tpl, "generic", bad[0], bad[1], "derive")
             data = self.secret_value(oid + 100000, 32)
-            r = self.w.C_DeriveKey(s=sh, mech={"m": K.CKM_AES_ECB_ENCRYPT_DATA, "p": {"strdata": data.hex()}}, key=hk, tpl=tpl)
+            if shape < 2:
+                mech = {"m": K.CKM_AES_ECB_ENCRYPT_DATA, "p": {"strdata": data.hex()}}
+            else:
+                mech = {"m": K.CKM_CONCATENATE_BASE_AND_DATA, "p": {"strdata": data[:8].hex()}}
+            r = self.w.C_DeriveKey(s=sh, mech=mech, key=hk, tpl=tpl)
             rv = r["rv"]
+            if rv == K.CKR_OK and shape in (1, 2) and not bad:
+                raise self.V("C_DeriveKey(%s) returned CKR_OK for a %d-byte key although the mechanism yields only %d bytes" % (
+                    K.name("CKM", mech["m"]), want, 32 if shape == 1 else 24))
+            if rv != K.CKR_OK and shape in (1, 2):
+                self.count("derive_too_long_rejected")
             if rv == K.CKR_OK:
                 o = self._register(sh, r["h"], oid, st_[0], bool(token), private if private is not None else True, "generic", label, "C_DeriveKey")
                 self._judge_creation(sh, o, "C_DeriveKey")
